@@ -30,8 +30,11 @@ def InvDead (g : G) : Prop :=
     (t = [] ∨ (∃ k, t = [.request k]) ∨ t = [.phases]) ∧
     (notes ++ t ≠ [] → o = g.out ∧ ∃ n rest, g.ops = List.replicate n .drain ++ .handler :: rest)
 
+/-- the daemon will understand everything that is still in `c` (or is dead) -/
+def Runnable (g : G) : Prop := g.b = .dead ∨ ∃ m rs, run g.b g.c = some (m, rs)
+
 def Inv (g : G) : Prop :=
-  g.st ≠ .live ∨ (g.b = .dead ∧ InvDead g) ∨ (g.b ≠ .dead ∧ InvAlive g)
+  (g.st ≠ .live ∧ Runnable g) ∨ (g.b = .dead ∧ InvDead g) ∨ (g.b ≠ .dead ∧ InvAlive g)
 
 /-! ## lemmas about `run`, `wf` -/
 
@@ -215,8 +218,15 @@ theorem evtail_head {b : BMode} {m : Msg} {t : List Msg} (h : EvTail b (m :: t))
 theorem inv_bCmd (g : G) (x : Cmd) (cs : List Cmd) (b' : BMode) (r : Option Reply)
     (hc : g.c = x :: cs) (ht : trans g.b x = some (b', r)) (h : Inv g) :
     Inv { g with b := b', c := cs, d := g.d ++ (optList r).map .reply } := by
-  rcases h with h | ⟨hb, _⟩ | ⟨hb, m', rs, hrun, hd⟩
-  · exact Or.inl h
+  rcases h with ⟨hst, hr⟩ | ⟨hb, _⟩ | ⟨hb, m', rs, hrun, hd⟩
+  · refine Or.inl ⟨hst, ?_⟩
+    rcases hr with hb | ⟨m, rs, hrun⟩
+    · rw [hb, trans_dead] at ht; simp at ht
+    · rw [hc] at hrun
+      obtain ⟨b1, r1, rs', ht', hrun', _⟩ := run_cons_inv _ _ _ _ _ hrun
+      rw [ht] at ht'
+      obtain ⟨rfl, rfl⟩ := Prod.mk.inj (Option.some.inj ht')
+      exact Or.inr ⟨m, rs', hrun'⟩
   · rw [hb, trans_dead] at ht; simp at ht
   · refine Or.inr (Or.inr ⟨trans_ne_dead ht, ?_⟩)
     rw [hc] at hrun
@@ -232,8 +242,8 @@ theorem inv_bCmd (g : G) (x : Cmd) (cs : List Cmd) (b' : BMode) (r : Option Repl
 theorem inv_bUnknown (g : G) (x : Cmd) (cs : List Cmd) (ha : alive g.b = true) (hc : g.c = x :: cs)
     (ht : trans g.b x = none) (h : Inv g) :
     Inv { g with b := .dead, c := cs, d := g.d ++ [.death] } := by
-  rcases h with h | ⟨hb, _⟩ | ⟨_, m', rs, hrun, _⟩
-  · exact Or.inl h
+  rcases h with ⟨hst, _⟩ | ⟨hb, _⟩ | ⟨_, m', rs, hrun, _⟩
+  · exact Or.inl ⟨hst, Or.inl rfl⟩
   · rw [hb] at ha; simp [alive] at ha
   · rw [hc] at hrun
     obtain ⟨b1, r1, rs', ht', _, _⟩ := run_cons_inv _ _ _ _ _ hrun
@@ -245,8 +255,13 @@ theorem inv_bEvent (g : G) (b' : BMode) (ev : Msg) (hb : g.b = .running)
     (h : Inv g) : Inv { g with b := b', d := g.d ++ [ev] } := by
   have hb' : b' ≠ .dead := by
     rcases hev with ⟨_, e⟩ | ⟨k, _, e⟩ | ⟨_, e⟩ <;> (rw [e]; simp)
-  rcases h with h | ⟨hbd, _⟩ | ⟨_, m', rs, hrun, hd⟩
-  · exact Or.inl h
+  rcases h with ⟨hst, hr⟩ | ⟨hbd, _⟩ | ⟨_, m', rs, hrun, hd⟩
+  · refine Or.inl ⟨hst, ?_⟩
+    rcases hr with hbd | ⟨m, rs, hrun⟩
+    · rw [hb] at hbd; simp at hbd
+    · rw [hb] at hrun
+      obtain ⟨hc, _, _⟩ := run_running hrun
+      exact Or.inr ⟨b', [], by show run b' g.c = _; rw [hc]; rfl⟩
   · rw [hb] at hbd; simp at hbd
   · refine Or.inr (Or.inr ⟨hb', ?_⟩)
     rw [hb] at hrun
@@ -275,8 +290,8 @@ theorem inv_bEvent (g : G) (b' : BMode) (ev : Msg) (hb : g.b = .running)
 
 theorem inv_bDeath (g : G) (ha : alive g.b = true) (h : Inv g) :
     Inv { g with b := .dead, d := g.d ++ [.death] } := by
-  rcases h with h | ⟨hb, _⟩ | ⟨_, m', rs, hrun, hd⟩
-  · exact Or.inl h
+  rcases h with ⟨hst, _⟩ | ⟨hb, _⟩ | ⟨_, m', rs, hrun, hd⟩
+  · exact Or.inl ⟨hst, Or.inl rfl⟩
   · rw [hb] at ha; simp [alive] at ha
   · refine Or.inr (Or.inl ⟨rfl, ?_⟩)
     rcases hd with ⟨hrep, _⟩ | ⟨_, notes, t, hn, htail, _, hdd, n, rest, hf, _⟩
@@ -295,8 +310,13 @@ theorem inv_bDeath (g : G) (ha : alive g.b = true) (h : Inv g) :
 theorem live_of {g : G} (hl : g.st = .live) (h : Inv g) :
     (g.b = .dead ∧ InvDead g) ∨ (g.b ≠ .dead ∧ InvAlive g) := by
   rcases h with h | h
-  · exact absurd hl h
+  · exact absurd hl h.1
   · exact h
+
+theorem runnable_of_live {g : G} (hl : g.st = .live) (h : Inv g) : Runnable g := by
+  rcases live_of hl h with ⟨hb, _⟩ | ⟨_, m', rs, hrun, _⟩
+  · exact Or.inl hb
+  · exact Or.inr ⟨m', rs, hrun⟩
 
 theorem inv_pStart (g : G) (prog : List POp) (hl : g.st = .live) (ho : g.ops = []) (hw : wf .main prog = true)
     (h : Inv g) : Inv { g with ops := prog } := by
@@ -564,13 +584,21 @@ theorem inv_step {g g' : G} (h : Inv g) (hs : Step g g') : Inv g' := by
   | pAsk x r ops hl ho he => exact inv_pAsk g x r ops hl ho he h
   | pDrainDone ops hl ho _ => exact inv_pDrainDone g ops hl ho h
   | pReadExpected r out d o ops hl _ _ hout hd => exact inv_pReadExpected g r out d hl hout hd h
-  | pReadMismatch => exact Or.inl (by simp)
-  | pReadDeath => exact Or.inl (by simp)
+  | pReadMismatch r out m d o ops hl =>
+    have hr : Runnable g := runnable_of_live hl h
+    exact Or.inl ⟨by simp, hr⟩
+  | pReadDeath d o ops hl =>
+    have hr : Runnable g := runnable_of_live hl h
+    exact Or.inl ⟨by simp, hr⟩
   | pHandleNote d ops hl ho hout hd => exact inv_pHandleNote g d ops hl ho hout hd h
   | pHandleRequest k ans d ops hl ho hout hd hans => exact inv_pHandleRequest g k ans d ops hl ho hout hd hans h
   | pHandlePhases d ops hl ho hout hd => exact inv_pHandlePhases g d ops hl ho hout hd h
-  | pHandleUnknown => exact Or.inl (by simp)
-  | pStop => exact Or.inl (by simp)
+  | pHandleUnknown m d ops hl =>
+    have hr : Runnable g := runnable_of_live hl h
+    exact Or.inl ⟨by simp, hr⟩
+  | pStop ops hl =>
+    have hr : Runnable g := runnable_of_live hl h
+    exact Or.inl ⟨by simp, hr⟩
   | bCmd x cs b' r hc ht => exact inv_bCmd g x cs b' r hc ht h
   | bUnknown x cs ha _ hc ht => exact inv_bUnknown g x cs ha hc ht h
   | bNote hb =>
